@@ -45,10 +45,17 @@ def make_problem(ff, mini, multi):
     return SingleObjectiveProblem(fitness_function=ff, minimize=mini[0])
 
 
+_TRACKERS_MADE = [0]
+
+
 def make_tracker(problem, multi, evaluator, recorders):
-    if multi:
-        return MultiObjectiveProgressTracker(problem, evaluator, recorders=recorders)
-    return SingleObjectiveProgressTracker(problem, evaluator, recorders=recorders)
+    cls = MultiObjectiveProgressTracker if multi else SingleObjectiveProgressTracker
+    _TRACKERS_MADE[0] += 1
+    if isinstance(evaluator, SequentialEvaluator) and _TRACKERS_MADE[0] % 2 == 0:
+        # every other tracker is built the way a user attaches recorders: without naming an evaluator; all searches of
+        # this driver run in ONE process, so whatever such trackers share would carry over from search to search
+        return cls(problem, recorders=recorders)
+    return cls(problem, evaluator, recorders=recorders)
 
 
 def base_cfg(mini, multi, alg, fb=1, b=1, n=0, budget="none", evaluator="seq"):
@@ -360,6 +367,20 @@ def main():
                                         gp_step=stepname, pop=pop)
                 batch.trace(f"run/gens/{stepname}/{pop}/{int(mi)}", ev, cfg)
                 stats["events"] += len(ev)
+
+    # fractional targets against integer-valued fitness: the tolerance of a target budget is ABSOLUTE (1e-4) - a best
+    # fitness 5e-5 away from the target meets it, one 0.05 away does not, whatever the magnitude of the target
+    for i, (val, off) in enumerate([(1000, 0.05), (1000, 0.00005), (0, 0.00005), (0, 0.05), (-5000, 0.2), (-5000, -0.00005),
+                                    (1000, -0.05), (7, 0.00009)]):
+        for alg in ("RS", "HC", "OPO", "GP"):
+            if quick and (i + len(alg)) % 2:
+                continue
+            mini_t = val <= 0          # the near value must be the BEST one seen: it is the extreme of its history
+            h = [[x] for x in ((val + 9, val + 4, val, val + 5, val + 1, val) if mini_t else (3, val - 4, val, 5, val - 1, val))]
+            ev, cfg = algorithm_run(R, alg, h, "scripted", [mini_t], False, "anyof", 9, "tree",
+                                    gp_step="default", pop=3, k=2, target=val + off)
+            batch.trace(f"run/fractarget/{i}/{alg}", ev, cfg)
+            stats["events"] += len(ev)
 
     # the self-adjusting GP variant
     for i in range(12 if quick else 90):
